@@ -104,9 +104,14 @@ type Run struct {
 	replayDir   string
 	evidence    string
 	verbose     bool
+	distinctOverride int
 }
 
 var theRun *Run
+
+// WorkerMain, when set by a harness (via vexp), is run instead of the body
+// when the binary is started with -worker.
+var WorkerMain func()
 
 // Main is the entry point of every harness binary.
 func Main(id, level string, body func(r *Run), replay func(r *Run, raw json.RawMessage)) {
@@ -118,7 +123,16 @@ func Main(id, level string, body func(r *Run), replay func(r *Run, raw json.RawM
 	replayF := flag.String("replay", "", "replay one recorded case")
 	budget := flag.Duration("budget", 0, "soft wall-clock budget; on expiry the run ends with exhaustive=false")
 	verbose := flag.Bool("v", false, "verbose")
+	worker := flag.Bool("worker", false, "run as exploration worker (internal)")
 	flag.Parse()
+	if *worker {
+		if WorkerMain == nil {
+			fmt.Fprintln(os.Stderr, "harness has no worker mode")
+			os.Exit(2)
+		}
+		WorkerMain()
+		os.Exit(0)
+	}
 	r := &Run{ID: id, Tier: *tier, Seed: *seed, Level: level,
 		distinct: map[[16]byte]struct{}{}, outcomes: map[[16]byte]struct{}{},
 		sampleCap: 6, extra: map[string]any{}, exhaustive: true, viols: map[string]*Violation{},
@@ -252,6 +266,22 @@ func (r *Run) Expired() bool {
 	return !r.deadline.IsZero() && time.Now().After(r.deadline)
 }
 
+// DeadlineUnix returns the soft deadline as unix seconds (0 = none).
+func (r *Run) DeadlineUnix() int64 {
+	if r.deadline.IsZero() {
+		return 0
+	}
+	return r.deadline.Unix()
+}
+
+// SetDistinctCount sets distinct_nontrivial directly when the explorer counts
+// distinct cases itself (every explored schedule is a distinct choice sequence).
+func (r *Run) SetDistinctCount(n int) {
+	r.mu.Lock()
+	r.distinctOverride += n
+	r.mu.Unlock()
+}
+
 func (r *Run) Logf(f string, a ...any) {
 	if r.verbose {
 		fmt.Fprintf(os.Stderr, f+"\n", a...)
@@ -353,7 +383,7 @@ func (r *Run) finish(isReplay bool) {
 			ev = int(r.transitions.Load())
 		}
 		cov["evaluations"] = ev
-		cov["distinct_nontrivial"] = len(r.distinct)
+		cov["distinct_nontrivial"] = len(r.distinct) + r.distinctOverride
 		cov["distinct_outcomes"] = len(r.outcomes)
 		if len(r.outcomes) == 1 {
 			cov["vacuous"] = true
